@@ -13,6 +13,7 @@ import (
 	"os/exec"
 	"os/signal"
 	"path/filepath"
+	"sort"
 	"strconv"
 	"strings"
 	"sync"
@@ -47,7 +48,7 @@ const (
 	eps      = 20 * time.Millisecond  // harness and RunT read "now" at slightly different instants
 	sigma    = 150 * time.Millisecond // scheduling slack for the soft bounds
 	hard     = 30 * time.Second
-	quietMax = 30 * time.Millisecond
+	quietMax = 100 * time.Millisecond
 )
 
 type softStat struct {
@@ -138,7 +139,7 @@ func lateIgnorer(r *vlib.Run, base string, report func(kind string, c dcase)) {
 func main() {
 	tsh.Main("C17", "exploration", 12*time.Minute, func(r *vlib.Run) {
 		r.Rule("RunT calls with Params.Deadline 0.4 / 0.7 / 1.2 / 2 / 3 / 5 / 8 s ahead (round-robin) and 1-6 scripts each, mixing foreground commands that block for ever (die on the interrupt), trap the interrupt and exit, ignore the interrupt (must be killed), exit at about the moment the context expires, exit at once but leave a grandchild holding their output pipes across the expiry, block (or finish at once) with 256 KB of terminal input pending that they never read, scripts that finish early, scripts with SIGINT-terminable background jobs, and scripts blocked in 'wait' for a background job that never ends. Three ways of running them: subtests released as soon as RunT returned (plain), released 20-35% of the distance later (the parent test keeps working; the deadline stays where it is), and under a T that runs subtests one after another (scripts after the first blocked one start with the context already expired). Evaluations = scripts run; distinct non-trivial = distinct (deadline distance, multiset of script kinds) cases containing at least one blocked script.")
-		r.Assume("grace = max(100 ms, (deadline - start)/20) as documented in RunT; eps = 20 ms for the difference between the harness' and RunT's reading of the clock; lateness (soft bounds, slack 150 ms) is judged only in cases whose calibration goroutine and calibration helper were never more than 30 ms late, and is a violation only when the same bound is breached, for one deadline distance, in >= 3 quiet cases and >= 80% of the quiet cases exercising it at that distance; a regression that makes cleanup late by less than 150 ms is not detected")
+		r.Assume("grace = max(100 ms, (deadline - start)/20) as documented in RunT; eps = 20 ms for the difference between the harness' and RunT's reading of the clock; lateness (soft bounds, slack 150 ms) is judged only in cases whose calibration goroutine and calibration helper were never more than 100 ms late, and is a violation only when the same bound is breached, for one deadline distance, in >= 3 quiet cases and >= 80% of the quiet cases exercising it at that distance (the first script of every plain and delayed case traps or ignores the interrupt, so every distance has its samples); a regression that makes cleanup late by less than 150 ms is not detected")
 		base := vlib.Scratch()
 		rng := r.Rand("cases")
 		ncases := r.Pick(56, 280)
@@ -148,6 +149,7 @@ func main() {
 		seen := map[string]int{}
 		soft := map[string]*softStat{}
 		var noisy, quiet int64
+		noisyCases := []string{}
 		report := func(kind string, c dcase) {
 			mu.Lock()
 			seen[kind]++
@@ -192,8 +194,10 @@ func main() {
 			firstBlocked := -1
 			for i := 0; i < n; i++ {
 				k := kinds[crng.Intn(len(kinds))]
-				if i == 0 && k == "early" && jb.mode != "sequential" {
-					k = "block"
+				if i == 0 && jb.mode != "sequential" {
+					// the first script of every plain / delayed case reports when the interrupt arrived,
+					// so that each deadline distance gets its timing samples whatever else is drawn
+					k = []string{"trapquit", "ignorequit"}[jb.idx%2]
 				}
 				if k == "ttyearly" && (jb.dist < 1200*time.Millisecond || jb.mode == "sequential") {
 					k = "ttyflood"
@@ -349,6 +353,9 @@ func main() {
 				atomic.AddInt64(&quiet, 1)
 			} else {
 				atomic.AddInt64(&noisy, 1)
+				mu.Lock()
+				noisyCases = append(noisyCases, fmt.Sprintf("case %d (%v, %s): calibration goroutine up to %v late", jb.idx, jb.dist, jb.mode, time.Duration(atomic.LoadInt64(&maxLate))))
+				mu.Unlock()
 			}
 			softCheckT := func(name string, lateness, slack time.Duration, example string) {
 				if !isQuiet {
@@ -491,16 +498,23 @@ func main() {
 				r.Sample(map[string]any{"kind": "case", "mode": jb.mode, "deadline_distance": jb.dist.String(), "scripts": specs, "max_calibration_lateness": time.Duration(atomic.LoadInt64(&maxLate)).String()})
 			}
 		}
-		vlib.Parallel(len(jobs), 8, func(i int) { runCase(jobs[i]) })
+		vlib.Parallel(len(jobs), 8, func(i int) {
+			if i < 8 {
+				time.Sleep(time.Duration(i) * 60 * time.Millisecond) // no common start: eight cases beginning at once disturb each other's timing
+			}
+			runCase(jobs[i])
+		})
 		lateIgnorer(r, base, report)
 		r.Set("cases", ncases)
 		r.Set("cases_quiet", atomic.LoadInt64(&quiet))
+		sort.Strings(noisyCases)
+		r.Set("noisy_cases", noisyCases)
 		r.Set("cases_noisy_soft_bounds_skipped", atomic.LoadInt64(&noisy))
 		softOut := map[string]any{}
 		for name, st := range soft {
 			softOut[name] = map[string]any{"quiet_cases": st.quiet, "breached": st.breached, "worst": st.worst.String()}
-			if st.quiet < 4 {
-				r.Set("soft_bound_"+name, "inconclusive: fewer than 4 quiet cases")
+			if st.quiet < 3 {
+				r.Set("soft_bound_"+name, "inconclusive: fewer than 3 quiet cases")
 				continue
 			}
 			if st.breached >= 3 && st.breached*5 >= st.quiet*4 {
